@@ -1,6 +1,7 @@
 mod dbx;
 mod enc;
 mod hist;
+mod search;
 use vcore::Args;
 
 fn main() {
